@@ -2,7 +2,7 @@
 import math
 import numpy as np
 from .. import env, coq, runner, gates, tables, opsem, mcircuits
-from ..scripted import enumerate_runs
+from ..scripted import enumerate_runs, BranchExplosion
 
 LEVEL = 'proof'
 META = dict(
@@ -166,6 +166,9 @@ def circuit_stream(ctx, cirq, checks, n):
                     br = enumerate_runs(lambda s: np.array(cirq.Simulator(seed=s, split_untangled_states=split, dtype=np.complex128)
                                                            .simulate(c, qubit_order=qs, initial_state=k0).final_state_vector))
                     rho = sum(p * np.outer(st, st.conj()) for p, st, _ in br)
+            except BranchExplosion:
+                ctx.count(entry + ':skipped-too-many-branches', [desc, entry], False)
+                continue
             except Exception as e:
                 import traceback
                 ctx.violation(f'{entry}:raises:{type(e).__name__}', f'{entry} raised {type(e).__name__}: {e} on {desc}',
